@@ -152,6 +152,21 @@ class Settings(MutableMapping):
                     )
                 self._settings[key] = collections.deque([value])
 
+        # The settings proposed by each call to update(), oldest first: one
+        # call carries the values of one SETTINGS frame, and one
+        # acknowledgement applies the values of exactly one frame.
+        self._proposed = collections.deque()
+
+    def update(self, *args, **kwargs):
+        """
+        Propose new values for several settings at once, as one SETTINGS frame
+        does. The next acknowledgement that is not needed for an earlier call
+        applies these values and no others.
+        """
+        new_values = dict(*args, **kwargs)
+        super().update(new_values)
+        self._proposed.append(list(new_values))
+
     def acknowledge(self):
         """
         The settings have been acknowledged, either by the user (remote
@@ -161,9 +176,19 @@ class Settings(MutableMapping):
         """
         changed_settings = {}
 
+        # An acknowledgement covers one SETTINGS frame: apply the values that
+        # the oldest outstanding call to update() proposed. Values proposed
+        # one by one, outside update(), are all applied by the next
+        # acknowledgement that finds no such call outstanding.
+        if self._proposed:
+            acknowledged = self._proposed.popleft()
+        else:
+            acknowledged = list(self._settings)
+
         # If there is more than one setting in the list, we have a setting
         # value outstanding. Update them.
-        for k, v in self._settings.items():
+        for k in acknowledged:
+            v = self._settings.get(k, ())
             if len(v) > 1:
                 old_setting = v.popleft()
                 new_setting = v[0]
